@@ -26,6 +26,7 @@ class Faulty:
     def __init__(self, items, mode, at):
         self.items, self.mode, self.at, self.fired = list(items), mode, at, 0
         self.cb, self.where, self.called = None, None, 0
+        self.effects, self.applied = [], 0  # writes the callback made on its own account: (kind, name, ...)
 
     def _callback(self):
         """Re-entrant use: while the library is reading this operand, the operand reads from the very object that is being
@@ -52,6 +53,28 @@ class Faulty:
                 obj.eval('1 + 1')
             elif self.cb == 'reindex':
                 obj.reindex(obj.__dict__['span'])
+            elif self.cb in ('w_scalar', 'w_cell', 'w_add', 'w_same') and self.called == 1:
+                # ... and writes to it: a complete operation of its own, made while the outer one is half-way
+                w = self.where
+                val = float(7000 + w.get('serial', 0))
+                if self.cb == 'w_scalar' and w.get('cbvar'):
+                    if w.get('via') == 'item':
+                        obj[w['cbvar']] = val
+                    else:
+                        setattr(obj, w['cbvar'], val)
+                    self.effects.append(('scalar', w['cbvar'], val))
+                elif self.cb == 'w_cell' and w.get('cbvar') and w.get('cblabel') is not None:
+                    obj[w['cbvar'], w['cblabel'][1]] = val
+                    self.effects.append(('cell', w['cbvar'], w['cblabel'][0], val))
+                elif self.cb == 'w_same' and w.get('same'):
+                    nm, pos, lab = w['same']
+                    obj[nm, lab] = val
+                    self.effects.append(('cell', nm, pos, val))
+                elif self.cb == 'w_add':
+                    nm = 'RE%d' % w.get('serial', 0)
+                    if nm not in obj.__dict__['index']:
+                        obj.add_variable(nm, 0.5)
+                        self.effects.append(('add', nm))
         except Exception:
             pass  # the data source's own try / except
 
